@@ -75,7 +75,7 @@ func (v *verifier) VerifyRequests() error {
 
 // ResetRequestVerifications clears all failed request verifications.
 func (v *verifier) ResetRequestVerifications() {
-	v.merr = martian.NewMultiError()
+	v.merr.Reset()
 }
 
 // verifierFromJSON builds a failure.Verifier from JSON
